@@ -32,7 +32,7 @@ SLICE_RULE = ("direction A: every state of the TLC builder machine is one case; 
               "and distinct by the hash of its full JSON line (input and result).")
 
 PLANS = {
-    "_trace_of_suite": {"slice": "TraceSlice", "build": "TraceBuild", "codes": "TraceCodes", "reader": "TraceReader"},
+    "_trace_of_suite": {"slice": "TraceSlice", "build": "TraceBuild", "codes": "TraceCodes", "reader": "TraceReader", "stats": "TraceStats"},
     "C01": dict(
         sany=["DltCodec.tla", "mc/MCCodec.tla", "trace/TraceSlice.tla"],
         steps=[
@@ -251,5 +251,21 @@ PLANS = {
                     "retries, Terminates under fairness that excludes infinite Pending) covers it. A: each simulated schedule is run through both real readers and the delivered "
                     "sequences and terminal classes compared. B: pair events (both readers, next_message_slice and read_message, same bytes and schedule): TLC checks equal deliveries, "
                     "equal terminal class, identical content, no panic; async sessions are additionally validated like C07 sessions.",
+    ),
+    "C10": dict(
+        sany=["Stats.tla", "mc/MCStats.tla", "trace/TraceStats.tla"],
+        steps=[
+            mc("stats", "MCStats", "MCStats_quick.cfg", "MCStats_thorough.cfg", replay=("stats", "collector")),
+            rec("stats", "scan", "TraceStats", 1200, 30000, 3, 10),
+        ],
+        rule="direction A: every stream of up to 3 (quick) / 4 (thorough) messages over 11 representative headers x every split into up to 3 parts; direction B: seeded random "
+             "well-formed streams of 0..6 messages with ids from a small pool (so that ids are shared), random split; non-trivial = at least 2 messages; distinct by the JSON line",
+        explanation="MC: the collector machine over all streams of <= 3 / <= 4 messages drawn from 11 headers that cover every bucket (all six levels, invalid level 0 and 9, control, "
+                    "network trace, no extended header), the NONE ECU, id sharing and the verbose flag; every split into <= 3 parts at message boundaries; every order and direction of "
+                    "merging: EqualsTally (collector = independent count), Conservation (ECU totals = number of messages), MergeIsSum, PartsConserve. A: every stream x split driven "
+                    "into the real StatisticInfoCollector (collect_statistic per header, collect()), parts compared, then merged in all 18 orders / groupings (left-nested, right-nested, "
+                    "into a fresh summary) and compared with the whole. B: collect_statistics over the real reader with a recording collector (each visit = the header decode of the "
+                    "corresponding piece of the stream, once each, in order; level / verbose / payload length / storage header) and with the standard collector (= Tally of the visits, "
+                    "ECU totals, all merges of a random 3-split = the whole); order-free comparison, no duplicate ids.",
     ),
 }
